@@ -1,5 +1,6 @@
 import Gnet.Driver.Util
 import Gnet.Model.LB
+import Gnet.Proofs.LB
 namespace Gnet.Driver.LBD
 open Gnet
 
@@ -21,6 +22,15 @@ def step (s : St) (ws : List String) : Option (St × String) :=
       let c := s.lb.counts.getD i 0 + d
       some ({ s with lb := { s.lb with counts := s.lb.counts.set i c } }, s!"count={c}")
     | _, _ => bad
+  | ["lcrun", k] => match k.toNat? with
+    | some k =>
+      if s.kind = "lc" then
+        if s.lb.size = 0 ∧ 0 < k then none
+        else
+          let lb' := Proofs.LB.lcRun s.lb k      -- the function `lc_run_balanced` is about
+          some ({ s with lb := lb' }, s!"counts={lb'.counts}")
+      else bad
+    | none => bad
   | ["next", h] => match bytesOfHex h with
     | some bs =>
       let addr := bs.map (fun b => UInt8.ofNat b)
